@@ -40,6 +40,9 @@ type Job struct {
 	Spec     *spec.Spec
 	Variants []Variant
 	Ops      []Op
+	// Runs, when set, replaces Ops: the binary is started once per element
+	// (a fresh process each time) and VRes.RunLines holds the result lines.
+	Runs [][]Op
 	// Texts overrides the driver file per variant name (used by checks that
 	// need the minimal prologue/epilogue); when set for a variant no ops run.
 	Texts map[string]string
@@ -57,6 +60,8 @@ type VRes struct {
 	BuildErr string // compiler / loader diagnostics for this variant
 	Built    bool
 	Lines    []json.RawMessage // one per op
+	RunLines [][]json.RawMessage
+	RaceOut  string // race detector report, if any
 	RunErr   string
 	TimedOut bool
 	Stderr   string
@@ -242,36 +247,52 @@ func RunBatch(env *Env, workdir string, jobs []*Job) (map[string]map[string]*VRe
 			}
 			return
 		}
-		ops, _ := json.Marshal(it.j.Ops)
 		to := it.j.RunTimeout
 		if to == 0 {
 			to = 60 * time.Second
 		}
-		var rr RunResult
-		if it.v.IsGo() {
-			if !r.Built {
-				return
+		if it.v.IsGo() && !r.Built {
+			return
+		}
+		runOnce := func(oplist []Op) []json.RawMessage {
+			ops, _ := json.Marshal(oplist)
+			var rr RunResult
+			if it.v.IsGo() {
+				b := bin
+				if it.j.Race {
+					b = binRace
+				}
+				rr = Run(to, workdir, ops, filepath.Join(b, pkgName(it)))
+			} else {
+				args := append(append([]string{}, env.NodeFlags...), r.OutPath)
+				rr = Run(to, tsdir, ops, env.Node, args...)
+				r.Built = true
 			}
-			b := bin
-			if it.j.Race {
-				b = binRace
+			if rr.TimedOut {
+				r.TimedOut = true
 			}
-			rr = Run(to, workdir, ops, filepath.Join(b, pkgName(it)))
+			r.Stderr = rr.Stderr
+			if strings.Contains(rr.Stderr, "WARNING: DATA RACE") {
+				r.RaceOut = clip(rr.Stderr, 4000)
+			}
+			if rr.Exit != 0 && !rr.TimedOut {
+				r.RunErr = fmt.Sprintf("exit status %d: %s", rr.Exit, clip(rr.Stderr, 1500))
+			}
+			var lines []json.RawMessage
+			for _, line := range strings.Split(rr.Stdout, "\n") {
+				line = strings.TrimSpace(line)
+				if strings.HasPrefix(line, "{") {
+					lines = append(lines, json.RawMessage(line))
+				}
+			}
+			return lines
+		}
+		if it.j.Runs != nil {
+			for _, oplist := range it.j.Runs {
+				r.RunLines = append(r.RunLines, runOnce(oplist))
+			}
 		} else {
-			args := append(append([]string{}, env.NodeFlags...), r.OutPath)
-			rr = Run(to, tsdir, ops, env.Node, args...)
-			r.Built = true
-		}
-		r.TimedOut = rr.TimedOut
-		r.Stderr = rr.Stderr
-		if rr.Exit != 0 && !rr.TimedOut {
-			r.RunErr = fmt.Sprintf("exit status %d: %s", rr.Exit, clip(rr.Stderr, 1500))
-		}
-		for _, line := range strings.Split(rr.Stdout, "\n") {
-			line = strings.TrimSpace(line)
-			if strings.HasPrefix(line, "{") {
-				r.Lines = append(r.Lines, json.RawMessage(line))
-			}
+			r.Lines = runOnce(it.j.Ops)
 		}
 	})
 	return out, nil
